@@ -905,7 +905,9 @@ def _outputs(inp, X, Y, Z, poly, tscale):
         for fo in (True, False):
             o["origin_to_map(force_oriented=%s)#" % fo] = np.asarray(PX.origin_to(force_oriented=fo).proj_data, float)
         return o
-    seg = H.Segment(PX, PY)
+    # (fresh Points: earlier queries may or may not have normalised PX / PY in place, which must not decide the relative
+    # scale of the two representatives the segment is built from)
+    seg = H.Segment(H.Point(np.array(X, copy=True)), H.Point(np.array(Y, copy=True)))
     ib = np.asarray(seg.ideal_endpoint_coords("klein"), float)
     o["segment_ideal_unordered"] = np.sort(ib, axis=-2) if False else ib
     o["segment_endpoints"] = np.asarray(seg.endpoint_coords("klein"), float)
